@@ -123,6 +123,10 @@ func genC10(seed uint64, tier string) *plan.Plan {
 		pl.Cfg["idle_ns"] = int64(20 * 365 * 24 * time.Hour) // advances of that order are not a stuck run
 	}
 	pl.Cfg["ttl"] = ttl
+	if ttl == 1800 && r.IntN(2) == 0 {
+		// the lifetime is left unset: RFC 7011's default, half an hour (entities.TemplateTTL), applies
+		pl.Cfg["ttl_unset"] = 1
+	}
 	pl.Cfg["member"] = int64(r.IntN(3) / 2) // 2/3 simclock, 1/3 realclock
 	pl.Cfg["mode"] = int64(r.IntN(3))
 	TTL := time.Duration(ttl) * time.Second
@@ -244,6 +248,10 @@ func runC10(pl *plan.Plan, out *plan.Outcome) {
 	simMember := cfgOr(pl, "member", 0) == 0
 	keys := []tkey{{1, 256}, {1, 257}, {2, 256}, {2, 257}}
 	in := collector.CollectorInput{Address: "10.0.0.1:4739", Protocol: "udp", MaxBufferSize: 65535, TemplateTTL: uint32(cfgOr(pl, "ttl", 5)), DecodingMode: modeNames[mode]}
+	if cfgOr(pl, "ttl_unset", 0) == 1 && TTL == 1800*time.Second {
+		in.TemplateTTL = 0
+		env.Count("probe.template_lifetime_left_at_default", 1)
+	}
 	var clk *simClock
 	var cp *collector.CollectingProcess
 	var err error
